@@ -288,10 +288,12 @@ func runC09(line string) string {
 				}
 			}(c)
 		}
+		time.Sleep(25 * time.Millisecond)
 		for round := 0; round < 15; round++ {
-			time.Sleep(25 * time.Millisecond)
 			cl.nodes[round%2].killConns()
+			time.Sleep(25 * time.Millisecond) // the load goes on: requests arrive while the lost connection is being cleaned up
 		}
+		time.Sleep(40 * time.Millisecond)
 		close(stopLoad)
 		lw.Wait()
 		cl.mu.Lock()
